@@ -28,6 +28,7 @@ package unite
 //   gOwned        backing arrays handed to the consumer for good (copy mode)
 //   gLent         backing array lent to the consumer until Release (no-copy mode), 0 = none
 //   gLastDeliv    clock value at the last delivery (or at creation)
+//   gJS, gTO, gNC the configured JoinSize, Timeout and no-copy mode (Opts at New)
 
 //@ ghost var gIn map[int]T
 //@ ghost var gInN int
@@ -38,6 +39,9 @@ package unite
 //@ ghost var gOwned set
 //@ ghost var gLent ref
 //@ ghost var gLastDeliv time
+//@ ghost var gJS int
+//@ ghost var gTO int
+//@ ghost var gNC bool
 
 //@ event recv dsc.opts.Input (item, opened)
 //@   effect gIn := ite(opened, seqappend(gIn, gInN, item), gIn)
@@ -51,20 +55,20 @@ package unite
 // What C03 / C08 / C09 / C11 say about a slice at the moment it is delivered.
 //@ event send dsc.output (s)
 //@   requires [C03] never-empty: len(s) >= 1
-//@   requires [C03] oversize-only-a-whole-big-input-slice: len(s) > dsc.opts.JoinSize ==> (gOutN == gBprev && gOutN + len(s) == gB)
+//@   requires [C03] oversize-only-a-whole-big-input-slice: len(s) > gJS ==> (gOutN == gBprev && gOutN + len(s) == gB)
 //@   requires [C03] continues-the-input-stream: gOutN + len(s) <= gInN && (forall j :: 0 <= j && j < len(s) ==> s[j] == gIn[gOutN + j])
 //@   requires [C11] ends-at-an-input-boundary: gOutN + len(s) == gB || gOutN + len(s) == gBprev
-//@   requires [C11] big-input-slice-gets-its-own-output: (gB - gBprev >= dsc.opts.JoinSize && gOutN + len(s) == gB) ==> gOutN == gBprev
-//@   requires [C09] maximal-without-timeout: dsc.opts.Timeout <= 0 ==> (len(s) >= dsc.opts.JoinSize || gClosed
-//@            || (gOutN + len(s) == gBprev && len(s) + (gB - gBprev) > dsc.opts.JoinSize))
-//@   requires [C09] non-maximal-not-before-timeout: (len(s) < dsc.opts.JoinSize && !gClosed
-//@            && !(gOutN + len(s) == gBprev && len(s) + (gB - gBprev) > dsc.opts.JoinSize)) ==> gClock - gLastDeliv >= dsc.opts.Timeout
-//@   requires [C08] copy-shares-no-memory: !dsc.opts.NoCopy ==> (!in(gOwned, s.arr) && s.arr != dsc.join.arr)
+//@   requires [C11] big-input-slice-gets-its-own-output: (gB - gBprev >= gJS && gOutN + len(s) == gB) ==> gOutN == gBprev
+//@   requires [C09] maximal-without-timeout: gTO <= 0 ==> (len(s) >= gJS || gClosed
+//@            || (gOutN + len(s) == gBprev && len(s) + (gB - gBprev) > gJS))
+//@   requires [C09] non-maximal-not-before-timeout: (len(s) < gJS && !gClosed
+//@            && !(gOutN + len(s) == gBprev && len(s) + (gB - gBprev) > gJS)) ==> gClock - gLastDeliv >= gTO
+//@   requires [C08] copy-shares-no-memory: !gNC ==> (!in(gOwned, s.arr) && s.arr != dsc.join.arr)
 //@   requires [C08] nothing-on-loan: gLent == 0
 //@   effect gOutN := gOutN + len(s)
 //@   effect gLastDeliv := gClock
-//@   effect gLent := ite(dsc.opts.NoCopy, s.arr, 0)
-//@   effect gOwned := ite(dsc.opts.NoCopy, gOwned, store(gOwned, s.arr, true))
+//@   effect gLent := ite(gNC, s.arr, 0)
+//@   effect gOwned := ite(gNC, gOwned, store(gOwned, s.arr, true))
 
 //@ event recv dsc.release ()
 //@   effect gLent := 0
@@ -82,8 +86,9 @@ package unite
 //@   requires [C10] ticker-period-is-interrupt-interval: d == dsc.interruptInterval
 
 //@ pred WFJ(dsc)
-//@   [*] dsc != nil && dsc.opts.JoinSize >= 1 && dsc.opts.JoinSize < two63
-//@   [*] cap(dsc.join) == dsc.opts.JoinSize && len(dsc.join) <= dsc.opts.JoinSize && dsc.join.arr != 0 && allocated(dsc.join.arr)
+//@   [* C03 C08 C09 C10 C11] configured-options-are-used: dsc != nil && dsc.opts.JoinSize == gJS && dsc.opts.Timeout == gTO && (dsc.opts.NoCopy <==> gNC)
+//@   [*] dsc != nil && gJS >= 1 && gJS < two63
+//@   [*] cap(dsc.join) == gJS && len(dsc.join) <= gJS && dsc.join.arr != 0 && allocated(dsc.join.arr)
 //@   [*] dsc.interruptInterval >= 0
 
 // Between two inputs: everything received is either delivered or in the buffer, and the
@@ -91,7 +96,7 @@ package unite
 //@ pred SEQ(dsc)
 //@   [C03 C09 C11] gInN == gOutN + len(dsc.join) && gOutN >= 0 && gB == gInN && gBprev <= gB
 //@   [C03] forall j :: 0 <= j && j < len(dsc.join) ==> dsc.join[j] == gIn[gOutN + j]
-//@   [C11] gB - gBprev >= dsc.opts.JoinSize ==> len(dsc.join) == 0
+//@   [C11] gB - gBprev >= gJS ==> len(dsc.join) == 0
 
 // While an input slice `item` is pending: the buffer ends at the boundary before it.
 //@ pred PENDING(dsc, item)
@@ -107,15 +112,15 @@ package unite
 //@   [C09] gLastDeliv <= dsc.passAt && dsc.passAt <= gClock
 
 //@ func (*Discipline).resetPassAt
-//@   requires [*] dsc != nil
+//@   requires [*] WFJ(dsc)
 //@   requires [C10] timer-restarts-only-with-empty-buffer: len(dsc.join) == 0
 //@   modifies dsc.passAt, gClock
 //@   ensures [* C09 C10] dsc.passAt == gClock && gClock >= old(gClock)
 
 //@ func (*Discipline).isTimeouted
-//@   requires [*] dsc != nil
+//@   requires [*] WFJ(dsc)
 //@   modifies gClock
-//@   ensures [* C09 C10] gClock >= old(gClock) && (result <==> gClock - dsc.passAt >= dsc.opts.Timeout)
+//@   ensures [* C09 C10] gClock >= old(gClock) && (result <==> gClock - dsc.passAt >= gTO)
 
 //@ func (*Discipline).resetJoin
 //@   requires [*] WFJ(dsc)
@@ -124,24 +129,24 @@ package unite
 //@   ensures [*] dsc.join.arr == old(dsc.join.arr) && cap(dsc.join) == old(cap(dsc.join)) && dsc.join.off == old(dsc.join.off)
 
 //@ func (*Discipline).prepareItem
-//@   requires [*] dsc != nil
-//@   ensures [* C03 C08] dsc.opts.NoCopy ==> result == item
+//@   requires [*] WFJ(dsc)
+//@   ensures [* C03 C08] gNC ==> result == item
 //@   ensures [* C03] len(result) == len(item) && (forall j :: 0 <= j && j < len(item) ==> result[j] == item[j])
-//@   ensures [C08] (!dsc.opts.NoCopy && len(item) > 0) ==> fresh(result.arr)
+//@   ensures [C08] (!gNC && len(item) > 0) ==> fresh(result.arr)
 
 // send delivers `item`, which is either the buffer or a pending input slice.
 //@ func (*Discipline).send
 //@   requires [*] WFJ(dsc)
 //@   requires [C03 C08] len(item) >= 1
 //@   requires [C03] gOutN + len(item) <= gInN
-//@   requires [C03] len(item) > dsc.opts.JoinSize ==> (gOutN == gBprev && gOutN + len(item) == gB)
+//@   requires [C03] len(item) > gJS ==> (gOutN == gBprev && gOutN + len(item) == gB)
 //@   requires [C03] forall j :: 0 <= j && j < len(item) ==> item[j] == gIn[gOutN + j]
 //@   requires [C11] gOutN + len(item) == gB || gOutN + len(item) == gBprev
-//@   requires [C11] (gB - gBprev >= dsc.opts.JoinSize && gOutN + len(item) == gB) ==> gOutN == gBprev
-//@   requires [C09] dsc.opts.Timeout <= 0 ==> (len(item) >= dsc.opts.JoinSize || gClosed
-//@            || (gOutN + len(item) == gBprev && len(item) + (gB - gBprev) > dsc.opts.JoinSize))
-//@   requires [C09] (len(item) < dsc.opts.JoinSize && !gClosed
-//@            && !(gOutN + len(item) == gBprev && len(item) + (gB - gBprev) > dsc.opts.JoinSize)) ==> gClock - gLastDeliv >= dsc.opts.Timeout
+//@   requires [C11] (gB - gBprev >= gJS && gOutN + len(item) == gB) ==> gOutN == gBprev
+//@   requires [C09] gTO <= 0 ==> (len(item) >= gJS || gClosed
+//@            || (gOutN + len(item) == gBprev && len(item) + (gB - gBprev) > gJS))
+//@   requires [C09] (len(item) < gJS && !gClosed
+//@            && !(gOutN + len(item) == gBprev && len(item) + (gB - gBprev) > gJS)) ==> gClock - gLastDeliv >= gTO
 //@   requires [C08] OWN(dsc)
 //@   modifies gOutN, gLastDeliv, gLent, gOwned, gClock
 //@   ensures [C03 C09 C11] gOutN == old(gOutN) + len(item)
@@ -152,7 +157,7 @@ package unite
 //@   requires [*] WFJ(dsc)
 //@   requires [* C03 C10 C11] len(dsc.join) == 0
 //@   requires [C03 C09 C11] PENDING(dsc, item)
-//@   requires [C03 C08 C09 C11] len(item) >= dsc.opts.JoinSize
+//@   requires [C03 C08 C09 C11] len(item) >= gJS
 //@   requires [C08] OWN(dsc)
 //@   requires [C09] TIME(dsc)
 //@   modifies dsc.passAt, gClock, gOutN, gLastDeliv, gLent, gOwned
@@ -168,13 +173,13 @@ package unite
 //@   requires [*] WFJ(dsc)
 //@   requires [C03 C09 C11] gOutN >= 0 && gB == gInN && gBprev <= gB && (gOutN + len(dsc.join) == gB || gOutN + len(dsc.join) == gBprev)
 //@   requires [C03] forall j :: 0 <= j && j < len(dsc.join) ==> dsc.join[j] == gIn[gOutN + j]
-//@   requires [C11] (gB - gBprev >= dsc.opts.JoinSize && gOutN + len(dsc.join) == gB && len(dsc.join) > 0) ==> gOutN == gBprev
+//@   requires [C11] (gB - gBprev >= gJS && gOutN + len(dsc.join) == gB && len(dsc.join) > 0) ==> gOutN == gBprev
 //@   requires [C08] OWN(dsc)
 //@   requires [C09] TIME(dsc)
-//@   requires [C09] dsc.opts.Timeout <= 0 ==> (len(dsc.join) == 0 || len(dsc.join) == dsc.opts.JoinSize || gClosed
-//@            || (gOutN + len(dsc.join) == gBprev && len(dsc.join) + (gB - gBprev) > dsc.opts.JoinSize))
-//@   requires [C09] len(dsc.join) == 0 || len(dsc.join) == dsc.opts.JoinSize || gClosed || gClock - dsc.passAt >= dsc.opts.Timeout
-//@            || (gOutN + len(dsc.join) == gBprev && len(dsc.join) + (gB - gBprev) > dsc.opts.JoinSize)
+//@   requires [C09] gTO <= 0 ==> (len(dsc.join) == 0 || len(dsc.join) == gJS || gClosed
+//@            || (gOutN + len(dsc.join) == gBprev && len(dsc.join) + (gB - gBprev) > gJS))
+//@   requires [C09] len(dsc.join) == 0 || len(dsc.join) == gJS || gClosed || gClock - dsc.passAt >= gTO
+//@            || (gOutN + len(dsc.join) == gBprev && len(dsc.join) + (gB - gBprev) > gJS)
 //@   modifies dsc.join, dsc.passAt, gClock, gOutN, gLastDeliv, gLent, gOwned
 //@   ensures [*] dsc.join.arr == old(dsc.join.arr) && cap(dsc.join) == old(cap(dsc.join)) && dsc.join.off == old(dsc.join.off)
 //@   ensures [*] WFJ(dsc)
@@ -185,20 +190,20 @@ package unite
 
 //@ func (*Discipline).process
 //@   requires [*] WFJ(dsc)
-//@   requires [*] len(dsc.join) < dsc.opts.JoinSize
+//@   requires [*] len(dsc.join) < gJS
 //@   requires [C03 C09 C11] PENDING(dsc, item)
 //@   requires [C08] OWN(dsc)
 //@   requires [C09] TIME(dsc)
 //@   modifies dsc.join, elems(dsc.join), dsc.passAt, gClock, gOutN, gLastDeliv, gLent, gOwned
 //@   ensures [*] WFJ(dsc)
-//@   ensures [*] len(dsc.join) < dsc.opts.JoinSize
+//@   ensures [*] len(dsc.join) < gJS
 //@   ensures [C03 C09 C11] SEQ(dsc)
 //@   ensures [C08] OWN(dsc)
 //@   ensures [C09] TIME(dsc)
 
 //@ pred INV(dsc)
 //@   [*] WFJ(dsc)
-//@   [*] len(dsc.join) < dsc.opts.JoinSize
+//@   [*] len(dsc.join) < gJS
 //@   [C03 C09 C11] SEQ(dsc)
 //@   [C08] OWN(dsc)
 //@   [C09] TIME(dsc)
@@ -206,7 +211,7 @@ package unite
 //@ func (*Discipline).loop
 //@   requires [*] INV(dsc)
 //@   requires [*] dsc.interruptInterval > 0
-//@   requires [C09] dsc.opts.Timeout > 0
+//@   requires [C09] gTO > 0
 //@   requires [C03 C09 C11] !gClosed
 //@   modifies dsc.join, elems(dsc.join), dsc.passAt, gClock, gIn, gInN, gB, gBprev, gClosed, gOutN, gLastDeliv, gLent, gOwned
 //@   ensures [C03] gClosed && gOutN == gInN
@@ -217,7 +222,7 @@ package unite
 //@ func (*Discipline).loopUntimeouted
 //@   requires [*] INV(dsc)
 //@   requires [C03 C09 C11] !gClosed
-//@   requires [C09] dsc.opts.Timeout <= 0
+//@   requires [C09] gTO <= 0
 //@   modifies dsc.join, elems(dsc.join), dsc.passAt, gClock, gIn, gInN, gB, gBprev, gClosed, gOutN, gLastDeliv, gLent, gOwned
 //@   ensures [C03] gClosed && gOutN == gInN
 //@   loop 0
@@ -227,20 +232,20 @@ package unite
 //@ func (*Discipline).main
 //@   requires [*] INV(dsc)
 //@   requires [C03 C09 C11] !gClosed
-//@   requires [C09] (dsc.interruptInterval == 0) <==> (dsc.opts.Timeout <= 0)
+//@   requires [C09] (dsc.interruptInterval == 0) <==> (gTO <= 0)
 //@   modifies dsc.join, elems(dsc.join), dsc.passAt, gClock, gIn, gInN, gB, gBprev, gClosed, gOutN, gLastDeliv, gLent, gOwned
 
 //@ func Opts.isValid
 //@   ensures [*] (result == nil) <==> (opts.Input != nil && opts.JoinSize != 0)
 
 //@ func Opts.normalize
-//@   ensures [*] result.Input == opts.Input && result.JoinSize == opts.JoinSize && result.NoCopy == opts.NoCopy && result.Timeout == opts.Timeout
+//@   ensures [* C03 C08 C09 C10 C11] options-are-kept: result.Input == opts.Input && result.JoinSize == opts.JoinSize && result.NoCopy == opts.NoCopy && result.Timeout == opts.Timeout
 //@   ensures [* C10] result.TimeoutInaccuracy == ite(opts.TimeoutInaccuracy == 0, 25, opts.TimeoutInaccuracy)
 
 // The ghost state of a discipline that does not exist yet is empty. JoinSize and
 // cap(Input)+1 are sizes the runtime can allocate (otherwise make panics in New).
 //@ func New
-//@   requires [*] ghost-initial-state: gInN == 0 && gOutN == 0 && gB == 0 && gBprev == 0 && !gClosed && gLent == 0 && gLastDeliv == gClock && (forall r :: !in(gOwned, r))
+//@   requires [*] ghost-initial-state: gJS == opts.JoinSize && gTO == opts.Timeout && (opts.NoCopy <==> gNC) && gInN == 0 && gOutN == 0 && gB == 0 && gBprev == 0 && !gClosed && gLent == 0 && gLastDeliv == gClock && (forall r :: !in(gOwned, r))
 //@   requires [*] allocatable: cap(opts.Input) + 1 < two63 && opts.JoinSize < two63
 //@   modifies gClock
 //@   ensures [*] result1 == nil ==> result0 != nil
